@@ -556,8 +556,10 @@ class Budget(Exception):
 
 
 class Env:
-    def __init__(self, strs, blocks, filesize, ext, rules):
+    def __init__(self, strs, blocks, filesize, ext, rules, disabled=()):
         self.strs, self.blocks, self.filesize, self.ext, self.rules = strs, blocks, filesize, ext, rules
+        self.disabled = set(disabled)       # rules switched off with yr_rule_disable: never match (their entry in `rules` is False);
+                                            # a direct reference is undefined, inside a rule set they count as not matching
 
 
 def truthy(v):
@@ -867,7 +869,7 @@ class Eval:
                 return a        # libyara: the short-circuit jump leaves the left operand's raw value as the value of `or`
             return (as_bool(a) and as_bool(b)) if h == "and" else (as_bool(a) or as_bool(b))
         if h == "ruleref":
-            return env.rules[e[1]]
+            return None if e[1] in env.disabled else env.rules[e[1]]
         if h in ("of", "ofin", "ofat", "ofrules"):
             q = self.quant(e[1], vars_, cur, {"of": "OP_OF", "ofrules": "OP_OF(rules)", "ofin": "OP_OF_FOUND_IN", "ofat": "OP_OF_FOUND_AT"}[h])
             idx = e[2][1]
@@ -923,13 +925,14 @@ class Eval:
         raise ValueError(h)
 
 
-def eval_rules(rules, blocks, filesize, ext, quirks=()):
-    """rules: list of (strs_matches, cond) -> (verdict list, merged stats, events) ; may raise Budget / ZeroDivisionError"""
+def eval_rules(rules, blocks, filesize, ext, quirks=(), disabled=()):
+    """rules: list of (strs_matches, cond) -> (verdict list, merged stats, events) ; may raise Budget / ZeroDivisionError
+    disabled: positions of the rules switched off through the API (they do not match whatever their condition says)"""
     verdicts, stats, events = [], {}, set()
-    for strs, cond in rules:
-        ev = Eval(Env(strs, blocks, filesize, ext, list(verdicts)), quirks)
+    for k, (strs, cond) in enumerate(rules):
+        ev = Eval(Env(strs, blocks, filesize, ext, list(verdicts), disabled), quirks)
         v = ev.ev(cond)
-        verdicts.append(as_bool(v))
+        verdicts.append(as_bool(v) and k not in disabled)
         k = "condition:" + ("undefined" if v is None else "true" if as_bool(v) else "false")
         ev.stats[k] = ev.stats.get(k, 0) + 1
         for a, b in ev.stats.items():
